@@ -210,7 +210,8 @@ CHECKS = {
                  'requests incl. refusals / structural plain assignments: cache_sound, validate_ok_means_valid, step_inv, cache_sound_all (cached-valid => '
                  'the CURRENT schema is valid, over all honest histories), structural_setter_seen_sound, and - WITH proposed_fixes/C13-S12.patch (fingerprint = everything the validator reads; flag '
                  'cfgCacheTracksStructure re-extracted) - cache_sound_all_mutators / cache_sound_every_history: EVERY public mutator, structural plain '
-                 'assignments included, with honest replace requests as the only condition. perm_deep: the verdict does not depend on the order of ANY '
+                 'assignments included, with honest replace requests as the only condition. the default-value clause given an independent meaning (Props/C13_default.lean: declarative Conforms, default_error_sound at every fuel, '
+                 'defaultOK_iff_conforms within the 64 levels the model looks at). perm_deep: the verdict does not depend on the order of ANY '
                  'list of the description at any level (types, directives, fields, arguments, enum values, input fields, union members, interfaces). '
                  'Refuted with machine-checked witnesses: the legacy cache variants (legacy_overwrite / nonatomic / directive_unsound, '
                  'legacy_type_name_masks, legacy_duplicate_masks, and cache_unsound_unseen_structural_setter / cache_sound_all_mutators_fails_today for '
